@@ -62,7 +62,7 @@ impl FunctionMarkupPass {
                     let rd = With::new(Register::X0, info.clone());
                     let name = With::new(LabelString::new("__return__"), info.clone());
                     let new_node =
-                        ParserNode::new_jump_link(inst, rd, name, prev_ret.node().token().clone());
+                        ParserNode::new_jump_link(inst, rd, name, found_ret.node().token().clone());
                     #[allow(unused_must_use)]
                     found_ret.set_node(new_node);
                 }
